@@ -51,7 +51,7 @@
  "name": "check_ext3_journal_ro",
  "props": ["C13"],
  "level": "P",
- "tier": "wip",
+ "tier": "quick",
  "harness": "h_check_ro",
  "includes": ["e2fsck"],
  "defines": ["RO_OPEN_OBSERVE_ONLY", "RO_BS=1024"],
@@ -90,7 +90,7 @@
  "name": "get_journal_ro_open",
  "props": ["C13"],
  "level": "P",
- "tier": "wip",
+ "tier": "quick",
  "harness": "h_get_ro",
  "includes": ["e2fsck"],
  "defines": ["RO_BS=1024"],
